@@ -302,6 +302,29 @@ package httpserver
 //@   at call invoke:(io.Reader).Read#1 do blen(c.buf) = blen(c.buf) + result0
 //@   ensures [buffer_invariant] (!old(c.readHello) && !c.readHello && err == nil) ==> blen(c.buf) == old(blen(c.buf)) + n
 
+//@ unit split_host_path frames=on props=C01 filter=`vhostTrie\)\.splitHostPath$`
+//@ // "host matching ignores letter case and port": the key both Insert and Match look up is the lower-cased text before the
+//@ // first slash, with the port removed exactly when net.SplitHostPort accepts it as host:port (hostOf/hasPort below ARE
+//@ // net.SplitHostPort's results, so an unbracketed IPv6 literal, which it rejects, is left alone).
+//@ spec before(s string) string
+//@ spec after(s string) string
+//@ spec hasSlash(s string) bool
+//@ spec hasPort(s string) bool
+//@ spec hostOf(s string) string
+//@ extern strings.SplitN
+//@   ensures (sep == "/" && n == 2) ==> (len(result) >= 1 && len(result) <= 2 && result[0] == before(s) && ((len(result) > 1) == hasSlash(s)) && (len(result) > 1 ==> result[1] == after(s)))
+//@ extern strings.ToLower
+//@   pure
+//@ extern net.SplitHostPort
+//@   ensures (result2 == nil) == hasPort(hostport)
+//@   ensures result2 == nil ==> result0 == hostOf(hostport)
+//@ define lowHost() string = strings.ToLower(before(key))
+//@ func (*vhostTrie).splitHostPath
+//@   ensures [port_removed] hasPort(lowHost()) ==> host == hostOf(lowHost())
+//@   ensures [no_port_means_lowercased_host] !hasPort(lowHost()) ==> host == lowHost()
+//@   ensures [path_keeps_everything_after_first_slash] hasSlash(key) ==> path == "/" + after(key)
+//@   ensures [no_slash_means_root] !hasSlash(key) ==> path == "/"
+
 //@ unit trie_match frames=on props=C01 filter=`vhostTrie\)\.Match$`
 //@ func (*vhostTrie).splitHostPath
 //@   pure
